@@ -137,7 +137,8 @@ T_Par(i)      == IF Present(i) THEN par[i] ELSE MISSING
 T_Anc(ta, H)  == IF H \subseteq PresentS THEN AncOf(ta, H) ELSE MISSING
 \* EFFECTIVE parents (what Repo.get_parents, the walker and merge-base work with): a graft point replaces the
 \* parents recorded in the commit, a commit named by the shallow file has none
-T_EPar(i)     == IF graft[i] # NOGRAFT THEN graft[i] ELSE IF i \in shal THEN {} ELSE T_Par(i)
+\* (Repo reads info/grafts, then the shallow file into the same table: the shallow entry wins)
+T_EPar(i)     == IF i \in shal THEN {} ELSE IF graft[i] # NOGRAFT THEN graft[i] ELSE T_Par(i)
 T_EParFn      == Force([i \in 0..N |-> IF i = 0 THEN {} ELSE T_EPar(i)])
 T_Mb(i, j)    == IF {i, j} \subseteq PresentS THEN Lca(T_EParFn, AncFn(T_EParFn), i, j) ELSE MISSING
 T_Walk(i)     == Norm(AncFn(T_EParFn)[i])         \* the commits a history walk from i visits
@@ -193,8 +194,8 @@ View(A) ==
         e == Force([i \in 0..N |->
                  IF i = 0 THEN {}
                  ELSE IF ~GraftsBeforeGraph /\ CgHit(A, i) THEN CgPar(i)
-                 ELSE IF graft[i] # NOGRAFT THEN graft[i]
                  ELSE IF i \in shal THEN {}
+                 ELSE IF graft[i] # NOGRAFT THEN graft[i]
                  ELSE p[i]])
     IN  [A |-> A, par |-> p, anc |-> AncFn(p), epar |-> e, eanc |-> AncFn(e), bm |-> {b \in bmp : Usable(A, b)}]
 
